@@ -304,6 +304,12 @@ ALPHABET_POOL = {
     "V8": MULTI_USE,
     "X5": RELAXED_B,
     "X6": MULTI_USE,
+    # top-level units named like the units of the failing programs, referencing the intrinsics
+    # those declare: tables of a failed parse that come back for a like-named unit show here
+    "X7": "subroutine s\nx = max(1.0, 2.0) + cos(1.0) + sin(2.0)\nend subroutine s\n"
+          "program p\ny = max(1, 2) + sin(1.0)\nend program p\n"
+          "module m\ncontains\nsubroutine t\nz = sin(1.0) + max(1, 2)\nend subroutine t\n"
+          "end module m\n",
     "X1": "x = sin(y) + cos(y)\nend\n",
     "X2": "module m\ncontains\nsubroutine s\nx = sin(1) + cos(2) + max(1, 2)\n"
           "end subroutine s\nend module m\n",
@@ -355,7 +361,7 @@ def _exhaustive_case(index):
         else:
             ops.append(["parse", sym, plain, "string", None])
     for std in ("f2003", "f2008"):
-        for x in ("X1", "X2", "X3", "X4", "X5", "X6"):
+        for x in ("X1", "X2", "X3", "X4", "X5", "X6", "X7"):
             ops.append(["create", std])
             ops.append(["parse", x, plain, "string", None])
         if std == "f2003" and ("c08" in hist or "V6" in hist):
